@@ -163,7 +163,8 @@ func (w *World) lexSSA() *lexSSAModel {
 			continue
 		}
 		sig := f.Obj.Type().(*types.Signature)
-		if sig.Results().Len() == 1 && isBasicKind(sig.Results().At(0).Type(), types.String) {
+		// (the text scanned is the first result; a scanner may report more, e.g. how many dots it has seen)
+		if sig.Results().Len() >= 1 && isBasicKind(sig.Results().At(0).Type(), types.String) {
 			lm.scanners[fn] = lm.classifyScanner(fn)
 		}
 		if sig.Results().Len() == 0 && sig.Params().Len() == 0 && fn != lm.readChar {
@@ -654,6 +655,9 @@ func (lm *lexSSAModel) summarise(fn *ssa.Function, b byte, p *pwPath) *lexTokPat
 				}
 				tp.litUnescapes++
 				lv = p.resolve(inner)
+			}
+			if ex, isEx := lv.(*ssa.Extract); isEx && ex.Index == 0 {
+				lv = ex.Tuple // the text of a scanner with several results
 			}
 			if call, ok := lv.(*ssa.Call); ok && call.Call.StaticCallee() != nil && lm.scanners[call.Call.StaticCallee()] != "" {
 				tp.litScanner = call.Call.StaticCallee().Name()
